@@ -347,7 +347,9 @@ def POWER(number, power):
     result = utils.power(number, power)
     if isinstance(result, error.XLError):
         return result
-    if math.isnan(result):
+    if isinstance(result, complex):
+        return error.NUM  # a negative number to a fractional power
+    if isinstance(result, float) and math.isnan(result):  # (isnan refuses a whole number beyond the largest double)
         return error.NUM
     return result
 
